@@ -512,6 +512,18 @@ class SymArray:
         self._sync()
         return self
 
+    def cumsum(self, axis=None, dtype=None, skipna=True):
+        if self.ndim != 1:
+            raise Unsupported("cumsum of a 2-D array")
+        if any(getattr(v, "__sx_nan__", False) for v in self.d):
+            raise Unsupported("cumsum over missing values (numpy propagates them, pandas skips them)")
+        out, acc = [], Q(0)
+        for v in self.d:
+            acc = acc + v
+            out.append(acc)
+        r = SymArray(out, self.dtype_tag)
+        return self._wrap(r) if hasattr(self, "_wrap") else r
+
     def __iadd__(self, o): return self._inplace(self + o, "add")
     def __isub__(self, o): return self._inplace(self - o, "subtract")
     def __imul__(self, o): return self._inplace(self * o, "multiply")
@@ -1055,7 +1067,8 @@ class NP:
         return self.full(shape, UNINIT, dtype)
 
     def full(self, shape, v, dtype=None):
-        tag = _norm_dtype(dtype) or ("f8" if not isinstance(v, SymArray) else v.dtype_tag)
+        # numpy takes the dtype of the fill value when none is given: np.full(n, 0) is an int64 array
+        tag = _norm_dtype(dtype) or (v.dtype_tag if isinstance(v, (SymArray, ZeroD)) else "f8" if isinstance(v, Uninit) else _dtype_of_scalar(v))
         if isinstance(shape, tuple):
             if len(shape) == 1:
                 shape = shape[0]
